@@ -411,6 +411,9 @@ pub fn ring_world(r: &mut Rng, tier: Tier, o: &RingOpts) -> (WorldCfg, OracleCfg
         Tier::Quick => (gap_max + u64::from(hsa) + 3).min(o.extra_rotations.max(8)),
         Tier::Thorough => gap_max + u64::from(hsa) + 3,
     };
+    // now and then a small ring is watched for several hundred rotations (counters that wrap
+    // after 255 visits)
+    let stable_rot = if n <= 3 && r.chance(1, 10) { stable_rot.max(300) } else { stable_rot };
     let stable_us = stable_rot * rot_traffic_us;
     let end_us = quiet_from + bound_us + stable_us + 10 * tslot_us;
     let world = WorldCfg {
